@@ -34,6 +34,10 @@ pub struct NamesScript {
     pub cases: Vec<NameCase>,
     /// pairs of distinct valid names used concurrently
     pub isolation: Vec<(String, String)>,
+    /// additionally: a violating name so long that its registration frame comes within this many
+    /// bytes of the 1 MiB frame limit (the refusal must still arrive)
+    #[serde(default)]
+    pub giant_slack: Option<u32>,
 }
 
 const OK_CHARS: &[char] = &['a', 'Z', '0', '9', '_', '-', 'q', 'M'];
@@ -156,7 +160,8 @@ pub fn gen_script(rng: &mut Rng) -> NamesScript {
             isolation.push((a, b));
         }
     }
-    NamesScript { net: NetCfg::calm(rng.next()), rt_seed: rng.next(), cases, isolation }
+    let giant_slack = if rng.chance(1, 8) { Some(*rng.pick(&[0u32, 1, 2, 16, 17, 18, 19, 40, 64, 200, 5_000])) } else { None };
+    NamesScript { net: NetCfg::calm(rng.next()), rt_seed: rng.next(), cases, isolation, giant_slack }
 }
 
 #[derive(Debug, Clone, PartialEq)]
@@ -269,6 +274,26 @@ async fn scenario(world: Rc<World>, sc: NamesScript) -> AResult<(Vec<CaseReport>
                 reports[i].lib.push(lib_open(&client, gl, phase * 2 + role, c.string.clone()).await);
             }
         }
+        // a violating name whose registration frame (just) fits into the frame limit
+        if let Some(slack) = sc.giant_slack {
+            const MAX: usize = 1_048_576;
+            for role in 0..2usize {
+                // payload = two length-prefixed strings (+ retention and the operation count for pub/sub)
+                let overhead = 8 + 8 + 3 + if phase == 0 { 16 } else { 0 };
+                let len = MAX - overhead - slack as usize;
+                let topic = TopicName::_create_unchecked(&"a".repeat(len), "abc");
+                let f = match (phase, role) {
+                    (0, 0) => Frame::RegisterPublisher(PublisherPayload { topic, retention_policy: 0, operations: vec![] }),
+                    (0, _) => Frame::RegisterSubscriber(SubscriberPayload { topic, retention_policy: 0, operations: vec![] }),
+                    (_, 0) => Frame::RegisterReplier(ReplierPayload { topic }),
+                    _ => Frame::RegisterRequestor(RequestorPayload { topic }),
+                };
+                let first = first_frame(&conn, f).await;
+                if first != First::Error(selium_protocol::error_codes::INVALID_TOPIC_NAME) {
+                    notes.push(format!("GIANT role {}: a registration whose namespace has {len} characters ({slack} bytes below the frame limit) was answered {first:?} instead of Error{{INVALID_TOPIC_NAME}}", phase * 2 + role));
+                }
+            }
+        }
         // isolation of similar names (phase 0: pub/sub, phase 1: request/reply)
         for (a, b) in &sc.isolation {
             if phase == 0 {
@@ -347,6 +372,9 @@ pub fn execute(prop: &str, sc: &NamesScript, opts: &ExecOpts) -> Outcome {
                     for n in notes {
                         if n.starts_with("ISOLATION") {
                             out.violate(prop, "names-share-traffic", "isolation", n.clone());
+                        }
+                        if n.starts_with("GIANT") {
+                            out.violate(prop, "invalid-name-not-refused-by-server", "server:giant-name", n.clone());
                         }
                     }
                     out.probe_n("isolation_pairs", sc.isolation.len() as u64);
